@@ -19,6 +19,9 @@ def parseSimple (w : String) : Option Simple :=
   | ["in", n] => some (.importName n)
   | ["ip", p] => some (.importPath p)
   | ["call", f] => some (.call f)
+  | ["tr", b] => some (.trace (b == "1"))
+  | ["raise"] => some .raise
+  | ["bad"] => some .bad
   | _ => none
 
 /-- tops separated by `;`; a function is `f.<name>(<simple>,<simple>…)`; an include `inc.<file>` -/
@@ -54,6 +57,7 @@ def errName : PErr → String
   | .undefinedSymbol => "undefined"
   | .includeFailed => "include-failed"
   | .tooNested => "too-nested"
+  | .syntaxError => "syntax"
 
 def nat (s : String) : Nat := s.toNat?.getD 0
 
@@ -64,6 +68,8 @@ def stepWord (ext : Ext) (w : World) (word : String) : World × String :=
   | ["clear"] => (hostStep ext w .clearPerms, "ok")
   | ["new", t] => (hostStep ext w (.newCtx (t == "t")), "ok")
   | ["trust", k, b] => (hostStep ext w (.setTrusted (nat k) (b == "1")), "ok")
+  | ["settrace", k, b] => (hostStep ext w (.setTrace (nat k) (b == "1")), "ok")
+  | ["istrace", k] => (w, "tc=" ++ (match getCtx w (nat k) with | some c => (if c.trace then "1" else "0") | none => "?"))
   | ["clone", k] => (hostStep ext w (.clone (nat k)), "ok")
   | ["free", k] => (hostStep ext w (.free (nat k)), "ok")
   | ["purge", k] => (hostStep ext w (.purge (nat k)), "ok")
@@ -79,7 +85,9 @@ def stepWord (ext : Ext) (w : World) (word : String) : World × String :=
     let w' := hostStep ext w (.run (nat x) (nat k))
     let created := match getCtx w' (nat k) with | some c => c.objs.drop before | none => []
     let bad := created.any fun o => !o.t.ctxTrusted && !o.t.granted
-    (w', "run=" ++ ",".intercalate (created.map (·.m)) ++ (if bad then "!spec" else ""))
+    let ran := (getExe w (nat x)).isSome && (getCtx w (nat k)).isSome
+    (w', "run=" ++ ",".intercalate (created.map (·.m)) ++ (if bad then "!spec" else "") ++
+      (if ran && w'.lastRaised then "!rerr" else ""))
   | ["loaded", n] => (w, "ld=" ++ (if w.proc.isLoaded n then "1" else "0"))
   | ["banned", n] => (w, "bn=" ++ (if w.proc.isGranted n then "0" else "1"))
   | ["istrusted", k] => (w, "t=" ++ (match getCtx w (nat k) with | some c => (if c.trusted then "1" else "0") | none => "?"))
@@ -168,6 +176,12 @@ def parseBlock : Nat → List String → Option (List Instr × List String)
     | ["tput", t, i, x] => one (.tput t (nat i) x) rest
     | ["tat", x, t, i] => one (.tat x t (nat i)) rest
     | ["tmp", k] => one (.tmp (int k)) rest
+    | ["tdel", t, i] => one (.tdel t (nat i)) rest
+    | ["tins", t, i, x] => one (.tins t (nat i) x) rest
+    | ["tcat", t, x] => one (.tcat t x) rest
+    | ["fall", t] => one (.fall t) rest
+    | ["mthrow", k] => one (.mthrow (int k)) rest
+    | ["newf", x, b] => one (.newf x (b == "1")) rest
     | ["ret", x] => one (.ret x) rest
     | ["stop"] => one .stop rest
     | "call" :: x :: f :: args => one (.call x f args) rest
@@ -205,6 +219,7 @@ structure Host where
   frames : List (Nat × Frame)      -- probe slot ↦ frame
   segs : List String               -- finished event segments
   outs : List String
+  returned : List (Nat × V) := []  -- probe slot ↦ the value a `return` left in that context (never taken by the host)
 
 def frameOf (h : Host) (k : Nat) : Option Frame := (h.frames.find? (·.1 == k)).map (·.2)
 
@@ -234,6 +249,27 @@ def hostWord (funcs : List Func) (h : Host) (word : String) : Host :=
       | (st', fr', .err _) => closeSeg (setFrame { h with st := st' } (nat k) fr') "rerr"
       | (st', fr', .haz e) => closeSeg (setFrame { h with st := st' } (nat k) fr') (hazOut e)
     | _, _ => closeSeg h "bad-op"
+  | ["retprog", k, toks] =>
+    -- a host that runs a program and does not take the returned value (probe op `retrun`)
+    match frameOf h (nat k), parseInstrs toks with
+    | some fr, some is =>
+      match execList funcs fr.cid execFuel is h.st fr with
+      | (st', fr', .ret v) =>
+        let old := (h.returned.find? (·.1 == nat k)).map (·.2)
+        match saveReturned st' old v with
+        | .ok (st2, some v2) =>
+          closeSeg (setFrame { h with st := st2, returned := (h.returned.filter (·.1 != nat k)) ++ [(nat k, v2)] } (nat k) fr') "ret"
+        | .ok (st2, none) => closeSeg (setFrame { h with st := st2 } (nat k) fr') "ret"
+        | .error e => closeSeg h (hazOut e)
+      | (st', fr', .ok) => closeSeg (setFrame { h with st := st' } (nat k) fr') "ok"
+      | (st', fr', .err _) => closeSeg (setFrame { h with st := st' } (nat k) fr') "rerr"
+      | (st', fr', .haz e) => closeSeg (setFrame { h with st := st' } (nat k) fr') (hazOut e)
+    | _, _ => closeSeg h "bad-op"
+  | ["dropret", k] =>
+    let old := (h.returned.find? (·.1 == nat k)).map (·.2)
+    match dropReturned h.st old with
+    | .ok (st2, _) => closeSeg { h with st := st2, returned := h.returned.filter (·.1 != nat k) } (if old.isSome then "ok" else "none")
+    | .error e => closeSeg h (hazOut e)
   | ["clone", k, j] =>
     match frameOf h (nat k) with
     | some fr =>
@@ -254,7 +290,7 @@ def hostWord (funcs : List Func) (h : Host) (word : String) : Host :=
       match frameOf h (nat k) with
       | some fr =>
         match sop h.st (.release fr.cid) with
-        | .ok st' => closeSeg { h with st := st', frames := h.frames.filter (·.1 != nat k) } "ok"
+        | .ok st' => closeSeg { h with st := st', frames := h.frames.filter (·.1 != nat k), returned := h.returned.filter (·.1 != nat k) } "ok"
         | .error e => closeSeg h (hazOut e)
       | none => closeSeg h "ok"
     else if op == "pwm" then closeSeg h "ok"
@@ -269,7 +305,7 @@ def parseFunc (w : String) : Option Func :=
 def handle (words : List String) : String :=
   let funcs := (words.filter (·.startsWith "func:")).filterMap parseFunc
   let ops := words.filter (fun w => !w.startsWith "func:")
-  let h0 : Host := ⟨{ s := SState.init, evs := [], cache := [] }, [], [], []⟩
+  let h0 : Host := ⟨{ s := SState.init, evs := [], cache := [] }, [], [], [], []⟩
   let h := ops.foldl (hostWord funcs) h0
   let s := h.st.s.h
   let leaked := (List.range s.nobj).filter fun o => s.destroyed o == 0
@@ -279,12 +315,63 @@ def handle (words : List String) : String :=
 
 end O
 
+/-! ### C17, module level: `meth <word>…` (part M of the model) -/
+namespace Mm
+open H S M
+
+def nat (s : String) : Nat := s.toNat?.getD 0
+
+/-- an argument `O:@<slot>` names the object the handle in that slot refers to when the call is made -/
+def resolveArg (s : MState) (a : String) : String :=
+  if a.startsWith "O:@" then
+    match s.s.h.slots[nat (a.drop 3).toString]? with
+    | some (.ref o) => "O:#" ++ toString (o + 1)
+    | _ => "O:?"
+  else a
+
+def parseOp (s : MState) (w : String) : Option MOp :=
+  match w.splitOn "." with
+  | ["nc"] => some (.store .newCtx)
+  | ["cc", k] => some (.store (.childCtx (nat k)))
+  | ["c", k, m] => some (.construct (nat k) (nat m))
+  | ["cf", k, m] => some (.constructFail (nat k) (nat m))
+  | ["cl", i, k] => some (.store (.clone (nat i) (nat k)))
+  | ["clr", i] => some (.store (.clear (nat i)))
+  | ["gv", i, k] => some (.store (.give (nat i) (nat k)))
+  | ["rel", k] => some (.store (.release (nat k)))
+  | ["dei"] => some .deinit
+  | "m" :: i :: m :: name :: args => some (.method (nat i) (nat m) name (args.map (resolveArg s)))
+  | _ => none
+
+def handle (words : List String) : String :=
+  let r := words.foldl (fun (acc : Except String MState) w =>
+    match acc with
+    | .error e => .error e
+    | .ok s =>
+      match parseOp s w with
+      | none => .error "bad-op"
+      | some op =>
+        match mstep s op with
+        | .ok s' => .ok s'
+        | .error e => .error (Hh.errStr e)) (.ok MState.init)
+  match r with
+  | .error e => "model=" ++ e
+  | .ok s =>
+    "model=ok calls=" ++ ",".intercalate (s.calls.map fun c =>
+        toString c.o ++ "/" ++ toString c.m ++ "/" ++ toString c.pos ++ "/" ++ c.name ++ "/" ++ ";".intercalate c.args) ++
+      " mods=" ++ ",".intercalate (s.modOf.map toString) ++
+      " failed=" ++ toString s.failed ++ " refused=" ++ toString s.refused ++
+      " log=" ++ ",".intercalate (s.s.h.log.map Hh.evStr)
+
+end Mm
+
 def handle (words : List String) : Option String :=
   match words with
   | "perm" :: rest => some (P.handle rest)
   | ["hops", script] => some (Hh.handle script)
   | ["hops"] => some (Hh.handle "")
   | "obj" :: rest => some (O.handle rest)
+  | "meth" :: rest => some (Mm.handle rest)
   | _ => none
 
 end BlocV.DrvC1617
